@@ -393,11 +393,28 @@ struct T16 {
               if constexpr (kind == 0) {
                 using P = LiePlain<PV>;
                 static_assert(P::RepSize > 0);
+                // accessor chains: the quaternion of an SO3 sub-part (m.so3().quat())
+                constexpr bool has_quat = requires { pv.quat(); };
                 if (k.id == K_PART_ASSIGN) {
                   allow(c, off, off + len, true);
                   const P e = rand_elem<P>(in);
                   for (int i = 0; i < len; ++i) mp[i] = e.coeffs()(i);
-                  pv = e;
+                  if constexpr (has_quat) {
+                    if (k.idx & 32) {
+                      const Eigen::Quaternion<S> q(e.coeffs()(3), e.coeffs()(0), e.coeffs()(1), e.coeffs()(2));
+                      pv.quat() = q;
+                    } else {
+                      pv = e;
+                    }
+                  } else {
+                    pv = e;
+                  }
+                } else if (k.id == K_PART_UPDATE && has_quat && (k.idx & 32)) {
+                  if constexpr (has_quat) {
+                    allow(c, off, off + len, true);
+                    for (int i = 0; i < len; ++i) mp[i] = mp[i] * S(-1);
+                    pv.quat().coeffs() *= S(-1);
+                  }
                 } else if (k.id == K_PART_RESET) {
                   allow(c, off, off + len, false);
                   P id;
